@@ -118,6 +118,9 @@ pub struct CallRec {
     pub running: bool,
     /// current_frame() before the call
     pub cur_before: i32,
+    /// network_stats() of the first remote player after the call (when CK_STATS is on):
+    /// result code, ping, local_frames_behind, remote_frames_behind
+    pub stats: (u8, i64, i32, i32),
 }
 
 #[derive(Clone, Debug, Default, serde::Serialize)]
@@ -251,6 +254,7 @@ struct Node<C: HCfg> {
     resim: Vec<i32>,
     first_sims: Vec<i32>,
     diverge_from: Option<i32>,
+    stats_handle: usize,
 }
 
 pub fn panic_msg(p: Box<dyn std::any::Any + Send>) -> String {
@@ -941,6 +945,11 @@ fn new_node<C: HCfg>(sess: Sess<C>, addr: Addr, is_spec: bool, window: usize, sc
         resim: Vec::new(),
         first_sims: Vec::new(),
         diverge_from: scn.diverge.and_then(|(n, f)| if n == idx { Some(f) } else { None }),
+        stats_handle: if scn.checks & (1 << 22) != 0 && idx < scn.peers.len() {
+            (0..scn.num_players).find(|h| scn.owner_of(*h) != idx).unwrap_or(usize::MAX)
+        } else {
+            usize::MAX
+        },
     }
 }
 
@@ -970,6 +979,7 @@ fn step_node<C: HCfg>(
         behind: 0,
         running: false,
         cur_before: 0,
+        stats: (255, -1, 0, 0),
     };
     if n.dead || n.tr.crashed.is_some() {
         return;
@@ -1073,6 +1083,9 @@ fn step_node<C: HCfg>(
     }
     if poll_only {
         mode = 2;
+    }
+    if scn.scripted_stalls.contains(&(ni, rel)) {
+        mode = 1;
     }
     if mode == 1 {
         rec.res = R_STALLED;
@@ -1212,6 +1225,15 @@ fn fill_rec<C: HCfg>(n: &mut Node<C>, rec: &mut CallRec) {
             s.current_state() == SessionState::Running,
         ),
     }));
+    if let Sess::P(s) = &n.sess {
+        if n.stats_handle != usize::MAX {
+            rec.stats = match catch_unwind(AssertUnwindSafe(|| s.network_stats(n.stats_handle))) {
+                Ok(Ok(st)) => (R_OK, st.ping as i64, st.local_frames_behind, st.remote_frames_behind),
+                Ok(Err(e)) => (err_code(&e), -1, 0, 0),
+                Err(_) => (R_PANIC, -1, 0, 0),
+            };
+        }
+    }
     if let Ok((cur, conf, ahead, running)) = r {
         rec.cur = cur;
         rec.conf = conf;
